@@ -443,6 +443,24 @@ class SymExec:
             dest = self.place_loc(st, t["dest"])
             self.write(st, dest, args[0])
             return {"k": "call", "name": name, "args": args, "locargs": args, "term": args[0], "inlined": True, "ret": args[0], "site": site, "dest": dest}
+        # arr.split_at_mut(k) / split_at(k) with a constant point on a fixed-size array: the two
+        # sub-slice locations [0, k) and [k, n)
+        if name in ("core::slice::<impl [T]>::split_at_mut", "core::slice::<impl [T]>::split_at") and len(args) == 2 and args[0][0] == "ref":
+            k_ = const_int(args[1])
+            base_loc = args[0][1]
+            lo0 = 0
+            n_ = self.loc_array_len(base_loc)
+            if n_ is None and base_loc[0] == "subslice" and base_loc[4] is False and isinstance(base_loc[2], int) and isinstance(base_loc[3], int):
+                # a part of a part
+                lo0, n_, base_loc = base_loc[2], base_loc[3] - base_loc[2], base_loc[1]
+            if k_ is not None and n_ is not None and 0 <= k_ <= n_:
+                r0 = ("ref", ("subslice", base_loc, lo0, lo0 + k_, False), args[0][2])
+                r1 = ("ref", ("subslice", base_loc, lo0 + k_, lo0 + n_, False), args[0][2])
+                v = ("agg", "tuple", None, 0, (r0, r1))
+                dest = self.place_loc(st, t["dest"])
+                self.write(st, dest, v)
+                snap = (("refv", self.read(st, args[0][1])), args[1])
+                return {"k": "call", "name": name, "args": snap, "locargs": args, "term": v, "inlined": True, "ret": v, "site": site, "dest": dest, "const_range": (lo0, lo0 + k_, n_), "const_split": (k_, n_)}
         # dest[a..b].copy_from_slice(src) with constant bounds: element-wise stores
         if name.split("::")[-1] in ("copy_from_slice", "clone_from_slice") and len(args) == 2 and args[0][0] == "ref" and args[0][1][0] == "subslice" and args[0][1][4] is False and isinstance(args[0][1][2], int) and isinstance(args[0][1][3], int):
             base, a_, b_ = args[0][1][1], args[0][1][2], args[0][1][3]
